@@ -245,4 +245,203 @@ theorem asNum_wrapNum (r : Except ErrKind Rat) :
      | .ok v => v.asNum) = r := by
   cases r <;> rfl
 
+/-! ### the unit system manager's state -/
+
+theorem find_dictSet_self (m : List (Sym × Sym)) (c u : Sym) :
+    (dictSet c u m).find? (·.1 == c) = some (c, u) := by
+  induction m with
+  | nil => simp [dictSet]
+  | cons p rest ih =>
+    obtain ⟨k, v⟩ := p
+    by_cases h : (k == c) = true
+    · have hk : k = c := by simpa using h
+      simp [dictSet, hk]
+    · simp only [dictSet, h, Bool.false_eq_true, ↓reduceIte, List.find?_cons]
+      simpa using ih
+
+theorem find_dictSet_other (m : List (Sym × Sym)) {c c' : Sym} (u : Sym) (h : c' ≠ c) :
+    (dictSet c u m).find? (·.1 == c') = m.find? (·.1 == c') := by
+  induction m with
+  | nil =>
+    have : (c == c') = false := by simpa using fun e => h e.symm
+    simp [dictSet, this]
+  | cons p rest ih =>
+    obtain ⟨k, v⟩ := p
+    by_cases hk : (k == c) = true
+    · have hkc : k = c := by simpa using hk
+      have : (c == c') = false := by simpa using fun e => h e.symm
+      simp [dictSet, hkc, this]
+    · simp only [dictSet, hk, Bool.false_eq_true, ↓reduceIte, List.find?_cons]
+      cases (k == c') <;> simp [ih]
+
+theorem systemDefaultUnit_dictSet (m : List (Sym × Sym)) {c : Sym} (u : Sym) (hc : c ≠ 0) :
+    systemDefaultUnit (dictSet c u m) c = some u := by
+  have : (c == 0) = false := by simpa using hc
+  simp [systemDefaultUnit, this, find_dictSet_self]
+
+theorem systemDefaultUnit_dictSet_other (m : List (Sym × Sym)) {c c' : Sym} (u : Sym) (h : c' ≠ c) :
+    systemDefaultUnit (dictSet c u m) c' = systemDefaultUnit m c' := by
+  simp [systemDefaultUnit, find_dictSet_other m u h]
+
+theorem systemDefaultUnit_dictDel (m : List (Sym × Sym)) (c : Sym) :
+    systemDefaultUnit (dictDel c m) c = none := by
+  unfold systemDefaultUnit
+  split
+  · rfl
+  · have : (dictDel c m).find? (·.1 == c) = none := by
+      simp [dictDel, List.find?_eq_none]
+    simp [this]
+
+theorem find_mapSys (id : Sym) (f : List (Sym × Sym) → List (Sym × Sym)) (l : List USys) :
+    (mapSys id f l).find? (·.id == id) = (l.find? (·.id == id)).map (fun s => { s with mapping := f s.mapping }) := by
+  induction l with
+  | nil => rfl
+  | cons s rest ih =>
+    by_cases h : (s.id == id) = true
+    · simp [mapSys, h]
+    · simp [mapSys, h, ih]
+
+/-- the current system is one of the manager's systems (kept by every step) -/
+def Mgr.WF (m : Mgr) : Prop := ∀ id, m.current = some id → ∃ s, m.find id = some s
+
+theorem Mgr.currentMapping_edit {m m' : Mgr} (hwf : m.WF) (f : List (Sym × Sym) → List (Sym × Sym))
+    (h : m.edit none f = .ok m') : m'.currentMapping = f m.currentMapping ∧ m'.current = m.current := by
+  unfold Mgr.edit at h
+  cases hc : m.current with
+  | none =>
+    simp only [hc] at h
+    cases h
+    simp [Mgr.currentMapping, hc]
+  | some id =>
+    simp only [hc] at h
+    cases h
+    obtain ⟨s, hs⟩ := hwf id hc
+    unfold Mgr.find at hs
+    simp [Mgr.currentMapping, hc, Mgr.find, find_mapSys, hs]
+
+/-! ### the invariant of the manager state is kept by every call -/
+
+theorem find_mapSys_isSome (id id' : Sym) (f : List (Sym × Sym) → List (Sym × Sym)) (l : List USys) :
+    ((mapSys id f l).find? (·.id == id')).isSome = (l.find? (·.id == id')).isSome := by
+  induction l with
+  | nil => rfl
+  | cons s rest ih =>
+    by_cases h : (s.id == id) = true
+    · simp only [mapSys, h, ↓reduceIte, List.find?_cons]
+      cases (s.id == id') <;> simp
+    · simp only [mapSys, h, Bool.false_eq_true, ↓reduceIte, List.find?_cons]
+      cases (s.id == id') <;> simp [ih]
+
+theorem find_filter_ne (l : List USys) {id id' : Sym} (hid : id' ≠ id) :
+    (l.filter (fun s => !(s.id == id))).find? (·.id == id') = l.find? (·.id == id') := by
+  induction l with
+  | nil => rfl
+  | cons x rest ih =>
+    by_cases hx : (x.id == id) = true
+    · have hx' : x.id = id := by simpa using hx
+      have h2 : (x.id == id') = false := by simpa [hx'] using fun e : id = id' => hid e.symm
+      simp [List.filter, hx, h2, ih]
+    · simp only [List.filter, hx, Bool.not_false, List.find?_cons]
+      cases (x.id == id') <;> simp [ih]
+
+theorem Mgr.WF_iff (m : Mgr) : m.WF ↔ ∀ id, m.current = some id → (m.find id).isSome = true := by
+  unfold Mgr.WF
+  constructor
+  · intro h id hc; obtain ⟨s, hs⟩ := h id hc; simp [hs]
+  · intro h id hc; exact Option.isSome_iff_exists.mp (h id hc)
+
+theorem Mgr.edit_wf {m m' : Mgr} (hwf : m.WF) (on : Option Sym) (f : List (Sym × Sym) → List (Sym × Sym))
+    (h : m.edit on f = .ok m') : m'.WF := by
+  rw [Mgr.WF_iff] at hwf ⊢
+  unfold Mgr.edit at h
+  cases on with
+  | some id =>
+    simp only at h
+    split at h
+    · cases h
+      intro id' hc
+      simp only [Mgr.find, find_mapSys_isSome]
+      exact hwf id' hc
+    · cases h
+  | none =>
+    simp only at h
+    cases hcur : m.current with
+    | none => rw [hcur] at h; cases h; intro id' hc; simp at hc
+    | some id =>
+      rw [hcur] at h; cases h
+      intro id' hc
+      simp only [Mgr.find, find_mapSys_isSome]
+      exact hwf id' (hcur.trans hc)
+
+theorem Mgr.step_wf (db : Db) {m : Mgr} (hwf : m.WF) (op : MgrOp) : (m.step db op).1.WF := by
+  cases op with
+  | convert c u val => exact hwf
+  | convertScalar s => exact hwf
+  | setDefaultUnit on c u =>
+    simp only [Mgr.step]
+    cases h : m.edit on (dictSet c u) with
+    | error e => exact hwf
+    | ok m' => exact Mgr.edit_wf hwf on _ h
+  | removeCategory on c =>
+    simp only [Mgr.step]
+    cases h : m.edit on (dictDel c) with
+    | error e => exact hwf
+    | ok m' => exact Mgr.edit_wf hwf on _ h
+  | setCurrent id =>
+    cases id with
+    | none => rw [Mgr.WF_iff]; intro id' hc; simp [Mgr.step, okState] at hc
+    | some id =>
+      simp only [Mgr.step]
+      split
+      · rename_i hf
+        rw [Mgr.WF_iff]; intro id' hc
+        simp only [okState] at hc ⊢
+        cases hc
+        simpa [Mgr.find] using hf
+      · exact hwf
+  | add id mapping =>
+    simp only [Mgr.step]
+    split
+    · exact hwf
+    · rename_i hf
+      rw [Mgr.WF_iff] at hwf ⊢
+      intro id' hc
+      simp only [okState, Mgr.find, List.find?_append] at hc ⊢
+      cases hcur : m.current with
+      | some c0 =>
+        rw [hcur] at hc; cases hc
+        have := hwf id' hcur
+        simp only [Mgr.find] at this
+        simp [this]
+      | none =>
+        rw [hcur] at hc; cases hc
+        simp
+  | remove id =>
+    simp only [Mgr.step]
+    split
+    · rename_i hf
+      rw [Mgr.WF_iff] at hwf ⊢
+      intro id' hc
+      simp only [okState] at hc ⊢
+      by_cases hcid : m.current = some id
+      · simp only [hcid, BEq.rfl, ↓reduceIte] at hc
+        cases hrest : m.systems.filter (fun s => !(s.id == id)) with
+        | nil => rw [hrest] at hc; cases hc
+        | cons s0 rest =>
+          rw [hrest] at hc
+          simp only [List.head?_cons, Option.map_some, Option.some.injEq] at hc
+          subst hc
+          simp [Mgr.find]
+      · have hne : (m.current == some id) = false := by simpa using hcid
+        simp only [hne, Bool.false_eq_true, ↓reduceIte] at hc
+        have h1 := hwf id' hc
+        have hid : id' ≠ id := by intro e; subst e; exact hcid hc
+        simp only [Mgr.find] at h1 ⊢
+        rw [find_filter_ne _ hid]; exact h1
+    · exact hwf
+
+theorem Mgr.run_wf (db : Db) {m : Mgr} (hwf : m.WF) (h : List MgrOp) : (Mgr.run db m h).1.WF := by
+  induction h generalizing m with
+  | nil => exact hwf
+  | cons op ops ih => exact ih (Mgr.step_wf db hwf op)
 end Barril.Routes
